@@ -7,7 +7,8 @@ import KyupyVerif.Model.Locs
 * succs = `=` followed by one `,`-separated list of reader indices (connected out-lines, pin order) per node, `|`-separated
 * preds = same with the drivers of the connected in-lines
 * what  = `wf` (→ `1`/`0`: `GA.wfB`) | `topo` | `rev` | `levels` (→ `v:l,…`) |
-          `lines` (extra = `=` out-line indices per node, `|`-separated) |
+          `lines` (extra = `=` out-line indices per node, `|`-separated) | `linetab` (extra = the same `;` number of lines → `GA`-size
+          `lineTableB`, the hypothesis of `C17.line_order_cover`) |
           `fanin0` / `fanin1` (extra = `=` origin indices; code as it is / repaired code) |
           `ranks` (extra = `=` forward ranks `;` reverse ranks → two bits: `GA.rankOKB`, `GA.rrankOKB`)
   node / line lists are answered `,`-separated, `~` when empty.
@@ -50,6 +51,13 @@ def handleTrav (what : String) (ga : GA) (extra : Option String) : String :=
   | "lines", some e =>
     let ol := parseLists e
     showNats (lineOrder g (fun v => ol.getD v []))
+  | "linetab", some e =>
+    -- hypothesis `lineTableB` of C17.line_order_cover: extra = `=` out-line indices per node `;` number of lines
+    match (body e).splitOn ";" with
+    | [ls, m] =>
+      let ol := ((ls.splitOn "|").map parseNats).toArray
+      if lineTableB ga.succs.size m.toNat! (fun v => ol.getD v []) then "1" else "0"
+    | _ => "bad-args"
   | "ranks", some e =>
     match (body e).splitOn ";" with
     | [f, r] =>
